@@ -1016,11 +1016,31 @@ impl Execute for (WhileOrUntil, &ast::WhileOrUntilClauseCommand) {
             shell.set_last_exit_status(condition_result.exit_code.into());
 
             if !condition_result.is_normal_flow() {
-                result = condition_result;
+                // A `break` or `continue` in the condition targets this loop first.
+                if condition_result.is_break() || condition_result.is_continue() {
+                    // If the condition's status still says "go on", the body is skipped and
+                    // counts as having yielded the condition's status; otherwise the loop's
+                    // status remains that of the last body execution.
+                    if condition_result.is_success() == is_while {
+                        result.exit_code = condition_result.exit_code;
 
-                // If the condition has break/continue, the while/until loop itself
-                // consumes one level. We need to decrement the level before returning.
-                result.next_control_flow = result.next_control_flow.try_decrement_loop_levels();
+                        // A `continue` aimed at this very loop then re-evaluates the condition.
+                        if matches!(
+                            condition_result.next_control_flow,
+                            crate::ExecutionControlFlow::ContinueLoop { levels: 0 }
+                        ) {
+                            continue;
+                        }
+                    }
+
+                    // The while/until loop itself consumes one level.
+                    result.next_control_flow = condition_result
+                        .next_control_flow
+                        .try_decrement_loop_levels();
+                    break;
+                }
+
+                result = condition_result;
                 break;
             }
 
